@@ -3,10 +3,26 @@
 Real code: okdmr.dmrlib.storage.{repeater_storage,repeater} run in-process; `uuid.uuid4` as seen by
 repeater.py is replaced by a deterministic counter (monkey-patched in this process only).
 Model: lean/DmrVerif/Model/Storage.lean through drv_c20 (stateful line protocol).
+
+Streams (all deterministic from ctx.rng):
+  corpus / exhaustive short histories / excluded points / random histories      (first version)
+  keys     names of dynamic attributes that are different strings but collide under some plausible normalisation:
+           the library's own constants (SNMP.OID_*, STORAGE_ATTR_* of the handlers) and systematic near-collision
+           families of every key; pair histories, a sweep over the whole universe on one record, random cluster histories
+  values   special values (white space, NUL, Unicode forms, huge ints, long strings); values outside the model's
+           alphabet (negative ints, floats, bytes, lists) oracle-only
+  addrs    incoming addresses that collide under a normalisation (leading zeros, case, white space, port mod 65536 …)
+  wide     one record with hundreds of attributes, one patch with hundreds of entries, long values
+  scale    thousands of records (distinct IPs / one IP many ports / mixed, identified fraction 0 … 1): len, identity,
+           ids, members and attributes of old / middle / new records, re-lookups of the oldest ones
 """
+import importlib
 import itertools
 import json
+import random
+import re
 import types
+import unicodedata
 import uuid as _uuid
 
 from common import impl_error
@@ -36,28 +52,37 @@ def cps(s: str) -> str:
     return ".".join(str(ord(c)) for c in s)
 
 
+def in_alphabet(v) -> bool:
+    """assumption A2: the values the model knows"""
+    if v is None or isinstance(v, (bool, str, _uuid.UUID)):
+        return True
+    if isinstance(v, int):
+        return v >= 0
+    return isinstance(v, tuple) and len(v) == 2 and isinstance(v[0], str) and type(v[1]) is int and v[1] >= 0
+
+
 def cval(v) -> str:
     if v is None:
         return "N"
     if isinstance(v, bool):
         return f"i{int(v)}"
-    if isinstance(v, int):
+    if isinstance(v, int) and v >= 0:
         return f"i{v}"
     if isinstance(v, str):
         return "s" + cps(v)
     if isinstance(v, _uuid.UUID):
         return f"u{v.int}"
-    if isinstance(v, tuple) and len(v) == 2 and isinstance(v[0], str) and isinstance(v[1], int):
+    if in_alphabet(v):
         return "a" + cps(v[0]) + ":" + str(v[1])
-    raise ValueError(f"value outside the modelled alphabet: {v!r}")
+    return "?" + type(v).__name__  # outside the modelled alphabet: such histories never reach the model
 
 
 _SAFE = set("ABCDEFGHIJKLMNOPQRSTUVWXYZabcdefghijklmnopqrstuvwxyz0123456789_.-")
 
 
 def ckey(k: str) -> str:
-    """injective ASCII token for an attribute key (the model only compares keys): unsafe characters as %XXXXXX;
-    the empty key as %"""
+    """injective ASCII token for an attribute key (the model only compares keys: `String` equality; an encoded key
+    is never one of the nine member names because it contains `%`): unsafe characters as %XXXXXX, the empty key as %"""
     if k == "":
         return "%"
     return "".join(c if c in _SAFE else f"%{ord(c):06x}" for c in k)
@@ -86,15 +111,19 @@ class Sut:
         rmod.uuid = types.SimpleNamespace(uuid4=lambda: _uuid.UUID(int=next(self.counter)), UUID=_uuid.UUID)
         self.storage = RepeaterStorage()
         self.created = []
+        self.by_id = {}  # id(object) -> creation index (the objects are kept alive by `created`)
 
     def close(self):
         self.rmod.uuid = self.saved_uuid
 
     def index(self, obj):
-        for i, o in enumerate(self.created):
-            if o is obj:
-                return i
+        i = self.by_id.get(id(obj))
+        if i is not None and self.created[i] is obj:
+            return i
+        if not isinstance(obj, self.rmod.Repeater):
+            return -1
         self.created.append(obj)
+        self.by_id[id(obj)] = len(self.created) - 1
         return len(self.created) - 1
 
     def snapshot(self):
@@ -102,6 +131,10 @@ class Sut:
         return [
             ({f: getattr(o, f) for f in FIELDS}, dict(o._Repeater__attrs)) for o in self.created
         ]
+
+    def snapshot_one(self, i):
+        o = self.created[i]
+        return ({f: getattr(o, f) for f in FIELDS}, dict(o._Repeater__attrs))
 
     def dict_items(self):
         return list(self.storage._RepeaterStorage__repeaters.items())
@@ -130,11 +163,11 @@ class Sut:
         return "val:" + cval(r)
 
     # one operation: op is a tuple; object references are creation indices (resolved by the caller)
-    def apply(self, op):
+    def apply(self, op, pre_flag=True):
         """returns (driver line, canonical result incl. len, raw result or exception)"""
         kind = op[0]
         st = self.storage
-        pre = "pre-ok" if not violates_pre(self, op) else "pre-violated"
+        pre = "pre-ok" if not (pre_flag and violates_pre(self, op)) else "pre-violated"
         try:
             if kind == "mi":
                 _, a, auto, p = op
@@ -146,7 +179,7 @@ class Sut:
                 r = st.save(None if ref is None else self.created[ref], dict(p))
             elif kind == "ma":
                 _, name, v = op
-                line = f"ma {name} {cval(v)}"
+                line = f"ma {ckey(name)} {cval(v)}"
                 r = st.match_attr(name, v)
             elif kind == "mip":
                 _, ip = op
@@ -191,6 +224,13 @@ def patch_of(op):
     return {}
 
 
+def named_keys(op):
+    """the dynamic-attribute names an operation names"""
+    if op[0] in ("attr", "del"):
+        return [op[2]]
+    return [k for k in patch_of(op) if k not in FIELDS]
+
+
 def expected_after_patch(fields, attrs, p):
     """the property's reading of a patch: exactly the named data members / dynamic attributes change"""
     fields, attrs = dict(fields), dict(attrs)
@@ -216,22 +256,55 @@ def fresh_fields(index, address):
     }
 
 
+def same(a, b) -> bool:
+    """equal, and of the same kind (1 / True / 1.0 and None / 0 are not interchangeable answers)"""
+    return a == b and type(a) is type(b)
+
+
+class Sink:
+    """collects the verdicts of an oracle instead of reporting them (replay; long histories whose failures are first
+    reduced to short ones)"""
+
+    def __init__(self):
+        self.failures = []
+        self.hist = {}
+
+    def fail(self, kind, input, what, expected=None, actual=None):
+        self.failures.append({"kind": kind, "input": input, "what": what, "expected": expected, "actual": actual})
+
+    def count(self, key, n=1):
+        self.hist[key] = self.hist.get(key, 0) + n
+
+
 class Oracle:
     """checks C20 as stated, on the real objects, while a history satisfying the preconditions runs"""
 
-    def __init__(self, ctx, sut, history, watch_keys=()):
+    FULL_READBACK = 400  # objects x watched keys read back after every operation up to this product
+
+    def __init__(self, ctx, sut, history, watch_keys=(), tag=None):
         self.ctx, self.sut, self.history = ctx, sut, history
+        self.tag = tag
         self.last_for_addr = {}  # address -> (object, id) returned by match_incoming since the last address_in assignment
         self.n = 0
         # what attr(key) has to answer, per created object, from the operations alone (public API only);
-        # `watch` = the keys read back after every operation: every key used so far plus the given siblings
+        # `watch` = the keys read back: every key used so far plus the given siblings
         self.exp_attrs = []
-        self.watch = list(watch_keys)
+        self.watch = list(dict.fromkeys(watch_keys))
+        self.watch_set = set(self.watch)
+        self.given_watch = list(self.watch)
+        self.suspects = []  # (key named by the operation, another key that changed with it)
+        self.nfail = 0
 
     def fail(self, kind, what, expected=None, actual=None):
         self.ctx.count(f"oracle-failure:{kind}")
+        self.nfail += 1
         if len(self.ctx.failures) < 200:  # keep the first (shortest) ones, count the rest
-            self.ctx.fail(kind, {"history": self.history[: self.n + 1], "stream": "ok"}, what, expected=expected, actual=actual)
+            inp = {"history": self.history[: self.n + 1], "stream": "ok"}
+            if self.given_watch:
+                inp["watch"] = self.given_watch[:64]
+            if self.tag:
+                inp["class"] = self.tag
+            self.ctx.fail(kind, inp, what, expected=expected, actual=actual)
 
     def before(self, op):
         sut = self.sut
@@ -243,6 +316,27 @@ class Oracle:
             # independent of match_attr: is there a stored record with this incoming address?
             self.seen = [o for o in self.all0 if o.address_in == op[1]]
 
+    def _watch(self, k):
+        if k not in self.watch_set:
+            self.watch_set.add(k)
+            self.watch.append(k)
+
+    def readback(self, op, keys=None, objs=None):
+        """attr(key) of the records, through the public API, against what the operations alone imply"""
+        sut = self.sut
+        named = named_keys(op) if op else []
+        for i in range(len(sut.created)) if objs is None else objs:
+            o = sut.created[i]
+            e = self.exp_attrs[i]
+            for k in self.watch if keys is None else keys:
+                got = o.attr(k)
+                want = e.get(k)
+                if not same(got, want) and not (got == want and not in_alphabet(want)):
+                    for nk in named:
+                        if nk != k and len(self.suspects) < 40:
+                            self.suspects.append((nk, k))
+                    self.fail("attribute-readback", f"attr({k!r}) of record {i} after {op[0] if op else 'the history'}: another key / record changed it or the write was lost", expected=repr(want), actual=repr(got))
+
     def after(self, op, raw):
         sut = self.sut
         raised = isinstance(raw, BaseException)
@@ -253,6 +347,10 @@ class Oracle:
             self.fail("duplicate-id", "two stored records have the same id", actual=[cval(i) for i in ids])
         if len({id(o) for o in all1}) != len(all1):
             self.fail("object-stored-twice", "one repeater object is stored under two keys")
+        # ---- nothing leaves the storage: every record stored before the operation is stored after it, in order
+        if len(all1) < len(self.all0) or any(a is not b for a, b in zip(self.all0, all1)):
+            gone = [sut.index(o) for o in self.all0 if not any(o is x for x in all1)]
+            self.fail("record-lost", f"{op[0]}: records {gone[:8]} stored before the operation are not stored after it (or the order changed)", expected=len(self.all0), actual=len(all1))
         # ---- a record is created only by an auto-creating lookup of an unseen address
         creates = op[0] == "mi" and op[2] and not self.seen
         exp_len = self.len0 + (1 if creates else 0)
@@ -301,37 +399,66 @@ class Oracle:
                 exp[ti][1].pop(op[2], None)
         if snap1 != exp:
             diff = [i for i in range(max(len(snap1), len(exp))) if i >= len(snap1) or i >= len(exp) or snap1[i] != exp[i]]
-            self.fail("patch-not-local", f"{op[0]}: records {diff} differ from 'exactly the named fields of the matched record changed'", expected=str([exp[i] for i in diff if i < len(exp)])[:400], actual=str([snap1[i] for i in diff if i < len(snap1)])[:400])
+            for i in diff:
+                if i < len(snap1) and i < len(exp):
+                    a1, a0 = snap1[i][1], exp[i][1]
+                    for k in list(a1.keys() | a0.keys()):
+                        if (k not in a1 or k not in a0 or a1[k] != a0[k]) and len(self.suspects) < 40:
+                            for nk in named_keys(op):
+                                if nk != k:
+                                    self.suspects.append((nk, k))
+            self.fail("patch-not-local", f"{op[0]}: records {diff[:8]} differ from 'exactly the named fields of the matched record changed'", expected=str([exp[i] for i in diff if i < len(exp)])[:400], actual=str([snap1[i] for i in diff if i < len(snap1)])[:400])
         # ---- the same through the public API: attr(key) of every record for every key in play
         while len(self.exp_attrs) < len(sut.created):
             self.exp_attrs.append({})
-        if not raised and target is not None:
+        if target is not None and sut.index(target) >= 0:
             ti = sut.index(target)
-            p = patch_of(op)
-            for k, v in p.items():
-                if k not in FIELDS:
-                    if k not in self.watch:
-                        self.watch.append(k)
-                    if v is not None:
-                        self.exp_attrs[ti][k] = v
+            e = self.exp_attrs[ti]
+            # what attr / delete_attr answer
             if op[0] == "attr":
-                if op[2] not in self.watch:
-                    self.watch.append(op[2])
-                if op[3] is not None:
-                    self.exp_attrs[ti][op[2]] = op[3]
+                want = op[3] if op[3] is not None else e.get(op[2])
+                if raised or not same(raw, want):
+                    self.fail("attribute-readback", f"attr({op[2]!r}{'' if op[3] is None else ', value'}) answered with something else than the value stored under this key", expected=repr(want), actual=impl_error(raw) if raised else repr(raw))
             elif op[0] == "del":
-                self.exp_attrs[ti].pop(op[2], None)
-        for i, o in enumerate(sut.created):
-            for k in self.watch:
-                got = o.attr(k)
-                want = self.exp_attrs[i].get(k)
-                if got != want or (got is None) != (want is None):
-                    self.fail("attribute-readback", f"attr({k!r}) of record {i} after {op[0]}: another key / record changed it or the write was lost", expected=str(want), actual=str(got))
+                if op[2] in e:
+                    if raw is not True:
+                        self.fail("attribute-readback", f"delete_attr({op[2]!r}) of a stored key did not answer True", expected="True", actual=impl_error(raw) if raised else repr(raw))
+                elif not (raw is False or (raised and type(raw).__name__ == "KeyError")):
+                    self.fail("attribute-readback", f"delete_attr({op[2]!r}) of a key that was never stored found something", expected="KeyError / False", actual=impl_error(raw) if raised else repr(raw))
+            if not raised:
+                for k, v in patch_of(op).items():
+                    if k not in FIELDS:
+                        self._watch(k)
+                        if v is not None:
+                            e[k] = v
+                if op[0] == "attr":
+                    self._watch(op[2])
+                    if op[3] is not None:
+                        e[op[2]] = op[3]
+                elif op[0] == "del":
+                    self._watch(op[2])
+                    e.pop(op[2], None)
+        if len(sut.created) * len(self.watch) <= self.FULL_READBACK or self.n % 64 == 63:
+            self.readback(op)
+        else:
+            # long histories over many keys: the keys named by the operation, a rotating window of the others
+            w = len(self.watch)
+            keys = list(dict.fromkeys(named_keys(op) + [self.watch[(self.n * 16 + j) % w] for j in range(16)]))
+            self.readback(op, keys=keys)
         # ---- bookkeeping for the identity check
         if "address_in" in patch_of(op) and not raised:
             self.last_for_addr = {}
         elif op[0] == "mi" and target is not None:
             self.last_for_addr[op[1]] = (target, target.id)
+        self.n += 1
+
+    def finish(self, probe=()):
+        """end of the history: every watched key and the given never-written siblings of every record, and every
+        handed-out record once more by its address"""
+        self.n = max(self.n - 1, 0)  # failures reported here belong to the whole history
+        for k in probe:
+            self._watch(k)
+        self.readback(None)
         self.n += 1
 
 
@@ -431,13 +558,28 @@ def resolve(sut, op):
     return op
 
 
-def run_sequence(ctx, ops, pairs, stream, dump_every=0, watch=()):
-    """runs one history on a fresh storage; returns False if it was inapplicable / left the preconditions"""
+def modelled(op) -> bool:
+    """every value of the operation is in the model's alphabet (A2)"""
+    if op[0] == "mi":
+        return in_alphabet(op[1]) and all(in_alphabet(v) for v in op[3].values())
+    if op[0] in ("save", "patch"):
+        return all(in_alphabet(v) for v in op[2].values())
+    if op[0] in ("ma", "attr"):
+        return in_alphabet(op[-1])
+    if op[0] == "mu":
+        return in_alphabet(op[1])
+    return True
+
+
+def run_sequence(ctx, ops, pairs, stream, dump_every=0, watch=(), probe=(), tag=None, oracle_ctx=None):
+    """runs one history on a fresh storage; returns False if it was inapplicable / left the preconditions.
+    `pairs` None: oracle only.  Returns the oracle (truthy) for stream 'ok'."""
     sut = Sut()
     try:
         history = []
-        oracle = Oracle(ctx, sut, history, watch) if stream == "ok" else None
+        oracle = Oracle(oracle_ctx or ctx, sut, history, watch, tag) if stream == "ok" else None
         local = [("reset", "ok")]
+        in_model = pairs is not None
         for n, op in enumerate(ops):
             op = resolve(sut, op)
             if op is None:
@@ -445,6 +587,7 @@ def run_sequence(ctx, ops, pairs, stream, dump_every=0, watch=()):
             if stream == "ok" and violates_pre(sut, op):
                 return False
             history.append(op_json(op))
+            in_model = in_model and modelled(op)
             if oracle:
                 oracle.before(op)
             line, out, raw = sut.apply(op)
@@ -463,9 +606,12 @@ def run_sequence(ctx, ops, pairs, stream, dump_every=0, watch=()):
                     ctx.fail("unexpected-exception", {"history": history, "stream": stream}, f"{op[0]} raised {type(raw).__name__}")
             if dump_every and (n + 1) % dump_every == 0:
                 local.append(("dump", sut.dump()))
-        local.append(("dump", sut.dump()))
-        pairs.extend(local)
-        return True
+        if oracle and (watch or probe):
+            oracle.finish(probe)
+        if in_model:
+            local.append(("dump", sut.dump()))
+            pairs.extend(local)
+        return oracle or True
     finally:
         sut.close()
 
@@ -478,6 +624,10 @@ def op_json(op):
             return {"addr": list(x)}
         if isinstance(x, dict):
             return {"patch": [[k, j(v)] for k, v in x.items()]}
+        if isinstance(x, bytes):
+            return {"bytes": x.hex()}
+        if isinstance(x, list):
+            return {"list": [j(y) for y in x]}
         return x
 
     return [j(x) for x in op]
@@ -491,31 +641,382 @@ def op_unjson(o):
             return tuple(x["addr"])
         if isinstance(x, dict) and "patch" in x:
             return {k: u(v) for k, v in x["patch"]}
+        if isinstance(x, dict) and "bytes" in x:
+            return bytes.fromhex(x["bytes"])
+        if isinstance(x, dict) and "list" in x:
+            return [u(y) for y in x["list"]]
         return x
 
     return tuple(u(x) for x in o)
 
 
-# attribute keys that are different names but become equal under some plausible normalisation (suffix / character
-# set stripping, case folding, whitespace, Unicode normalisation, prefix matching, numeric reading): a patch naming
-# one of them must not touch the others
+# ------------------------------------------------------------------------------------------------
+# names of dynamic attributes: the library's own constants and their near-collision families
+
+# used if the constants cannot be read from the library, and always in addition to them
+STATIC_KEYS = [
+    "1.3.6.1.4.1.40297.1.2.4.10.0",
+    "1.3.6.1.4.1.40297.1.2.4.1.0",
+    "1.3.6.1.4.1.40297.1.2.1.2.10.0",
+    "1.3.6.1.4.1.40297.1.2.1.2.1.0",
+    "p2p_is_registered",
+    "rdac_firmware",
+    "rx_freq",
+    "custom_attr",  # the names the library's tests use
+    "different_attr",
+    "firmware",
+    "k",
+    "m",
+    "café",  # composed / decomposed / compatibility forms exist
+    "ﬁrmware",
+    "Ångström",
+    "straße",
+    "10",
+    "0",
+]
+
+# hand-picked families of look-alike names (kept in addition to the generated ones)
 KEY_FAMILIES = [
     ["k.10.0", "k.1.0", "k.1", "k.10", "k.100.0", "k", "k.0", "k.", "k.00"],  # SNMP-like instance suffixes
     ["1.3.6.1.4.1.40297.1.2.4.10.0", "1.3.6.1.4.1.40297.1.2.4.1.0", "1.3.6.1.4.1.40297.1.2.4.1", "1.3.6.1.4.1.40297.1.2.1.2.10.0", "1.3.6.1.4.1.40297.1.2.1.2.1.0"],
     ["rx_freq", "RX_FREQ", "Rx_Freq", "rx-freq", "rxfreq", "rx_freq ", " rx_freq", "rx_freq\t", "rx_freq\n"],  # case / separators / whitespace
     ["key", "key2", "ke", "keykey", "key_", "_key", "__key", "key__", "_Repeater__key"],  # prefixes, name mangling look-alikes
-    ["\u00e9", "e\u0301", "E\u0301", "\u00c9", "e", "\uff4b", "k\u200b", "\u212a"],  # NFC/NFD, width, zero width, Kelvin sign
+    ["é", "é", "É", "É", "e", "ｋ", "k​", "K"],  # NFC/NFD, width, zero width, Kelvin sign
     ["0", "00", "0.0", ".0", "+0", "-0", "0x0", "", "None", "False"],  # numeric / empty / literal look-alikes
     ["a=b", "a,b", "a b", "a%3Db", "a;b", "a|b", "a\\b", "a/b"],  # separators of the harness' own line protocol
 ]
 
+WS = [" ", "\t", "\n", "\r\n", "\x0b", "\x0c", "\x1c", "\x85", "\xa0", " ", "　"]
+INVISIBLE = ["\x00", "​", "‍", "\xad", "﻿", "́", "\ud800"]
+AFFIXES = [".0", "0", ".", ".0.0", "00", "_", "s", "-", "1", ".1", "/", ":", "x", "%"]
 
-def random_op(rng, sut, stream):
-    addrs = [A0, A1, A2, A3, ("10.0.0.3", 1)]
-    vals = [None, 0, 1, 7, True, False, "", "AB", "x", A0, A2, ("", 0), 2**70, "v" * 300]
-    dyn = ["k", "m", "p2p_is_registered", "rx_freq"]
-    if rng.random() < 0.35:
-        dyn = rng.choice(KEY_FAMILIES)
+
+def _fullwidth(k):
+    return "".join(chr(ord(c) + 0xFEE0) if 0x21 <= ord(c) <= 0x7E else c for c in k)
+
+
+def _strip_accents(k):
+    return "".join(c for c in unicodedata.normalize("NFD", k) if not unicodedata.combining(c))
+
+
+def _norm(form):
+    def f(k):
+        return unicodedata.normalize(form, k)
+
+    return f
+
+
+def _camel_to_snake(k):
+    return re.sub(r"(?<=[a-z0-9])([A-Z])", r"_\1", k).lower()
+
+
+def _intsegs(k):
+    return ".".join(str(int(s)) if s.isascii() and s.isdigit() else s for s in k.split("."))
+
+
+def _numeric(k):
+    return str(int(k))  # raises for non-numeric names: those are their own class
+
+
+# plausible normalisations of a name; two different names with the same image are a collision candidate
+NORMALISERS = {
+    "rstrip('.0')": lambda k: k.rstrip(".0"),
+    "rstrip('.0') of *.0": lambda k: k.rstrip(".0") if k.endswith(".0") else k,
+    "removesuffix('.0')": lambda k: k[:-2] if k.endswith(".0") else k,
+    "rstrip('0')": lambda k: k.rstrip("0"),
+    "rstrip('.')": lambda k: k.rstrip("."),
+    "lstrip('.')": lambda k: k.lstrip("."),
+    "strip('.')": lambda k: k.strip("."),
+    "lstrip('0')": lambda k: k.lstrip("0"),
+    "lstrip('1.')": lambda k: k.lstrip("1."),
+    "strip('_')": lambda k: k.strip("_"),
+    "rstrip('s')": lambda k: k.rstrip("s"),
+    "strip()": lambda k: k.strip(),
+    "rstrip()": lambda k: k.rstrip(),
+    "lstrip()": lambda k: k.lstrip(),
+    "strip(whitespace, NUL, BOM)": lambda k: k.strip(" \t\r\n\x00﻿"),
+    "C string": lambda k: k.split("\x00")[0],
+    "first line": lambda k: (k.splitlines() or [""])[0],
+    "first word": lambda k: (k.split() or [""])[0],
+    "single spaces": lambda k: " ".join(k.split()),
+    "lower": str.lower,
+    "upper": str.upper,
+    "casefold": str.casefold,
+    "title": str.title,
+    "NFC": _norm("NFC"),
+    "NFD": _norm("NFD"),
+    "NFKC": _norm("NFKC"),
+    "NFKD": _norm("NFKD"),
+    "NFKC casefold": lambda k: unicodedata.normalize("NFKC", k).casefold(),
+    "strip accents": _strip_accents,
+    "drop invisible": lambda k: re.sub("[\x00​‍\xad﻿]", "", k),
+    "ascii ignore": lambda k: k.encode("ascii", "ignore").decode(),
+    "ascii replace": lambda k: k.encode("ascii", "replace").decode(),
+    "latin-1 replace": lambda k: k.encode("latin-1", "replace").decode("latin-1"),
+    "utf-8 replace": lambda k: k.encode("utf-8", "replace").decode(),
+    "separators to _": lambda k: re.sub(r"[-. /:]", "_", k),
+    "separators dropped": lambda k: re.sub(r"[-_. /:]", "", k),
+    "non-word dropped": lambda k: re.sub(r"\W", "", k),
+    "snake case": _camel_to_snake,
+    "doubled separators": lambda k: re.sub(r"([._-])\1+", r"\1", k),
+    "trunc 4": lambda k: k[:4],
+    "trunc 8": lambda k: k[:8],
+    "trunc 16": lambda k: k[:16],
+    "trunc 24": lambda k: k[:24],
+    "trunc 32": lambda k: k[:32],
+    "trunc 64": lambda k: k[:64],
+    "trunc 255": lambda k: k[:255],
+    "last segment": lambda k: k.rsplit(".", 1)[-1],
+    "drop last segment": lambda k: k.rsplit(".", 1)[0],
+    "after first _": lambda k: k.split("_", 1)[-1],
+    "int segments": _intsegs,
+    "numeric": _numeric,
+    "leading dot / iso": lambda k: re.sub(r"^(\.|iso\.)", "1." if k.startswith("iso.") else "", k),
+    "%-unquote": lambda k: re.sub(r"%([0-9A-Fa-f]{2})", lambda m: chr(int(m.group(1), 16)), k),
+}
+
+
+def variants(k):
+    """systematic near-collision family of a name: affixes added / removed, character sets stripped, zeros and dots
+    moved around the last segment, dotted prefixes, case, separators, Unicode forms, truncation / long twins, numeric
+    spellings"""
+    out = []
+    for t in AFFIXES + WS + INVISIBLE:
+        out += [k + t, t + k]
+    out += [k[:-1], k[:-2], k[1:], k[2:], k + k, k + "." + k]
+    for sep in "._- ":
+        if sep in k:
+            head, last = k.rsplit(sep, 1)
+            out += [head, head + sep, k.split(sep, 1)[1], k.replace(sep, ""), k.replace(sep, "_"), k.replace(sep, "-"), k.replace(sep, "."), k.replace(sep, " "), k.replace(sep, sep * 2)]
+    for cs in [".0", "0", ".", "1.", "_", "s", " ", "01", "._-"]:
+        out += [k.rstrip(cs), k.lstrip(cs), k.strip(cs)]
+    if "." in k:
+        head, last = k.rsplit(".", 1)
+        out += [head + "0." + last, head + ".0." + last, head + "00." + last, k + "0", head + ".0" + last, head + "." + last + ".0"]
+        if "." in head:
+            h2, l2 = head.rsplit(".", 1)
+            out += [h2 + "." + l2 + "0." + last, h2 + "." + l2.rstrip("0") + "." + last, h2 + ".0" + l2 + "." + last, h2 + "." + l2 + "." + last + "0"]
+        segs = k.split(".")
+        out += [".".join(segs[:i]) for i in range(1, len(segs))]
+        out.append(".".join("0" + s if s.isdigit() else s for s in segs))
+        if segs[0] == "1" and len(segs) > 7:  # net-snmp spellings of an OID
+            out += ["." + k, "iso." + ".".join(segs[1:]), "enterprises." + ".".join(segs[6:]), "SNMPv2-SMI::enterprises." + ".".join(segs[6:])]
+    out += [k.upper(), k.lower(), k.swapcase(), k.title(), k.capitalize(), k.casefold()]
+    if "_" in k:
+        parts = k.split("_")
+        out += [parts[0] + "".join(p.title() for p in parts[1:]), "".join(p.title() for p in parts)]
+    for form in ("NFC", "NFD", "NFKC", "NFKD"):
+        out.append(unicodedata.normalize(form, k))
+    out += [_fullwidth(k), _strip_accents(k), k.encode("ascii", "ignore").decode(), k.encode("ascii", "replace").decode()]
+    for a, b in (("k", "K"), ("s", "ſ"), ("i", "ı"), ("I", "İ"), ("ss", "ß"), ("fi", "ﬁ"), ("e", "é"), ("e", "é"), ("a", "а"), ("1", "١"), ("0", "０")):
+        if a in k:
+            out.append(k.replace(a, b, 1))
+    for n in (4, 8, 16, 24, 31, 32):
+        out.append(k[:n])
+    pad = k.ljust(300, "_")
+    out += [pad + "a", pad + "b", pad]
+    if k.isascii() and k.isdigit():
+        out += ["0" + k, "+" + k, k + ".0", k + "e0", "0x" + k, "-" + k]
+    return [v for v in dict.fromkeys(out) if v != k]
+
+
+def library_keys(ctx):
+    """the names the library itself stores as dynamic attributes, read from the live classes"""
+    keys = []
+    try:
+        from okdmr.dmrlib.hytera.snmp import SNMP
+
+        keys += [v for n, v in vars(SNMP).items() if n.startswith("OID_") and isinstance(v, str)]
+        keys += [v for v in list(getattr(SNMP, "ALL_KNOWN", [])) + list(getattr(SNMP, "READABLE_LABELS", {})) if isinstance(v, str)]
+    except Exception:  # noqa
+        ctx.count("keys:library-constants-unavailable:snmp")
+    for mod, cls in (
+        ("okdmr.dmrlib.protocols.hytera.p2p_datagram_protocol", "P2PDatagramProtocol"),
+        ("okdmr.dmrlib.protocols.hytera.rdac_datagram_protocol", "RDACDatagramProtocol"),
+    ):
+        try:
+            c = getattr(importlib.import_module(mod), cls)
+            keys += [v for n, v in vars(c).items() if n.startswith("STORAGE_ATTR_") and isinstance(v, str)]
+        except Exception:  # noqa
+            ctx.count(f"keys:library-constants-unavailable:{cls}")
+    return list(dict.fromkeys(keys))
+
+
+class Keys:
+    """the universe of attribute names of one run: base names, their families, the mined collision candidates"""
+
+    def __init__(self, ctx):
+        import okdmr.dmrlib.storage.repeater as rmod
+
+        taken = set(dir(rmod.Repeater())) - set(FIELDS)  # assumption A1: methods, logger, the private dict, dunders
+        lib = library_keys(ctx)
+        ctx.count("keys:library-constants", len(lib))
+        self.base = [k for k in dict.fromkeys(lib + STATIC_KEYS) if k not in taken and k not in FIELDS]
+        self.members = [f for f in FIELDS if f not in ("id", "address_in")]
+        fam = {}
+        universe = dict.fromkeys(self.base)
+        for k in self.base + self.members:
+            vs = [v for v in variants(k) if v not in taken and v not in FIELDS]
+            fam[k] = vs
+            universe.update(dict.fromkeys(vs))
+        for f in KEY_FAMILIES:
+            universe.update(dict.fromkeys(f))
+        self.family = fam
+        self.universe = [k for k in universe if k not in taken and k not in FIELDS]
+        ctx.count("keys:universe", len(self.universe))
+        # collision candidates: different names with the same image under some normaliser
+        special = set(self.base) | set(self.members)
+        pairs = {}
+        partners = {}
+        pool = self.universe + self.members
+        for name, fn in NORMALISERS.items():
+            img = {}
+            for k in pool:
+                try:
+                    y = fn(k)
+                except Exception:  # noqa
+                    continue
+                img.setdefault(y, []).append(k)
+            for ks in img.values():
+                if len(ks) < 2:
+                    continue
+                ks.sort(key=lambda k: (k not in special, len(k), k))
+                for a in range(min(len(ks), 4)):
+                    for b in range(a + 1, min(len(ks), 7)):
+                        if ks[a] in self.members and ks[b] in self.members:
+                            continue
+                        if (ks[a], ks[b]) not in pairs and (ks[b], ks[a]) not in pairs:
+                            pairs[(ks[a], ks[b])] = name
+                            partners.setdefault(ks[a], []).append(ks[b])
+                            partners.setdefault(ks[b], []).append(ks[a])
+        self.pairs = pairs
+        self.partners = partners
+        self.tier0 = [p for p in pairs if p[0] in special and p[1] in special]
+        self.tier1 = [p for p in pairs if (p[0] in special) != (p[1] in special)]
+        self.tier2 = [p for p in pairs if p[0] not in special and p[1] not in special]
+        ctx.count("keys:collision-candidates:both-library-names", len(self.tier0))
+        ctx.count("keys:collision-candidates:one-library-name", len(self.tier1))
+        ctx.count("keys:collision-candidates:variants-only", len(self.tier2))
+
+    def cluster(self, rng):
+        """a handful of names around one base name: partners under some normaliser, family members, an unrelated name"""
+        b = rng.choice(self.base + self.members)
+        out = [b] if b not in FIELDS else []
+        ps = self.partners.get(b, [])
+        out += rng.sample(ps, min(len(ps), 4))
+        fs = self.family.get(b, [])
+        out += rng.sample(fs, min(len(fs), 3))
+        out.append(rng.choice(self.base))
+        return [k for k in dict.fromkeys(out) if k not in FIELDS]
+
+
+V1, V2, V3 = 111, "v2", ("10.9.9.9", 9)
+
+
+def pair_histories(k1, k2):
+    """short histories on one or two records that write / overwrite / delete / read two look-alike names"""
+
+    def w(ref, k, v):  # a write through Repeater.patch
+        return ("patch", ref, {k: v})
+
+    hs = [
+        [("mi", A0, True, {k1: V1}), w(0, k2, V2), ("mi", A0, False, {k1: V3})],
+        [("mi", A0, True, {k1: V1, k2: V2}), ("mi", A1, True, {k2: V3}), ("save", 0, {k2: None, k1: V2}), ("save", 1, {k1: V1})],
+        [("mi", A0, True, {k2: V2}), ("save", 0, {k1: V1}), w(0, k2, V3)],
+    ]
+    if k1 not in FIELDS and k2 not in FIELDS:
+        hs[0].append(("del", 0, k2))
+        hs[1].append(("del", 1, k2))
+        hs += [
+            [("mi", A0, True, {}), ("attr", 0, k1, V1), ("attr", 0, k2, V2), ("del", 0, k1), ("attr", 0, k2, None)],
+            [("mi", A0, True, {k2: V2}), ("attr", 0, k1, None), ("del", 0, k1), ("attr", 0, k1, V1), ("del", 0, k2), ("attr", 0, k1, None)],
+        ]
+    return hs
+
+
+def run_pairs(ctx, keys, pairs, todo, tag="keys:pair"):
+    n = 0
+    for k1, k2 in todo:
+        for h in pair_histories(k1, k2):
+            ok = run_sequence(ctx, h, pairs, "ok", watch=[k for k in (k1, k2) if k not in FIELDS], tag=tag)
+            assert ok
+            n += 1
+            ctx.case((tag, k1, k2, len(h)), sample={"class": tag, "keys": [k1, k2], "collide under": keys.pairs.get((k1, k2)) or keys.pairs.get((k2, k1))} if n == 1 else None)
+        if len(pairs) > 200000:
+            flush(ctx, "storage.keys", pairs)
+    ctx.count(f"{tag}-histories", n)
+    return n
+
+
+def run_sweep(ctx, keys, names, pairs):
+    """one record (and a bystander) and EVERY name of `names`: each gets its own value through one of the four write
+    paths, then multi-entry patches of growing size, deletion of every other name, re-creation; every name is read
+    back through attr().  Complete over all pairs of `names` whatever the normalisation would be.  Failures are first
+    reduced to pair histories on the two names involved."""
+    rng = ctx.rng
+    order = list(names)
+    rng.shuffle(order)
+    ops = [("mi", A0, True, {}), ("mi", A1, True, {"bystander": 1})]
+    for n, k in enumerate(order):
+        v = n + 1000
+        w = rng.randrange(4)
+        ops.append([("mi", A0, False, {k: v}), ("save", 0, {k: v}), ("patch", 0, {k: v}), ("attr", 0, k, v)][w])
+    i, size = 0, 2
+    while i < len(order):  # multi-entry patches of growing size rewrite every third name
+        chunk = [k for k in order[i : i + size]][::3]
+        if chunk:
+            ops.append(("patch", 0, {k: f"s{i}.{j}" for j, k in enumerate(chunk)}))
+        i += size
+        size = min(size * 2, 512)
+    dele = order[::2]
+    rng.shuffle(dele)
+    for k in dele:
+        ops.append(("del", 0, k))
+    for n, k in enumerate(dele[::4]):
+        ops.append(("save", 0, {k: ("10.8.8.8", n)}))
+    sink = Sink()
+    o = run_sequence(ctx, ops, pairs, "ok", watch=order, tag="keys:sweep", oracle_ctx=sink)
+    assert o
+    ctx.count("keys:sweep-names", len(order))
+    ctx.count("keys:sweep-operations", len(ops))
+    ctx.case(("keys:sweep", len(order), len(ops)), sample={"class": "keys:sweep", "names": len(order), "operations": len(ops)})
+    if sink.failures:
+        before = len(ctx.failures)
+        todo = list(dict.fromkeys(tuple(sorted(p)) for p in o.suspects))[:12]
+        run_pairs(ctx, keys, pairs, todo, tag="keys:pair-from-sweep")
+        if len(ctx.failures) == before:  # not reproducible on two names alone: report the long history
+            for f in sink.failures[:3]:
+                ctx.fail(f["kind"], f["input"], f["what"], expected=f["expected"], actual=f["actual"])
+        for k, n in sink.hist.items():
+            ctx.count(k, n)
+
+
+# values: what a patch gives is what is stored (no trimming, folding, clamping, truncation)
+SPECIAL_VALUES = [
+    " ab ", "ab\x00", "Ab", "AB\n", "\r\nAB", "é", "é", "﻿x", "\ud800", "\U0001f4fb", "x" * 300, "0", "None",
+    2**31 - 1, 2**31, 2**32, 2**63, 2**64 - 1, 2**70, 10**30, 65536, 16777216,
+    ("10.0.0.1", 65535), ("::1", 0), (" 10.0.0.1", 50000), ("", 65536), ("x" * 300, 2**40),
+    _uuid.UUID(int=2**128 - 1), _uuid.UUID(int=1),
+]
+FOREIGN_VALUES = [-1, -70, 1.5, b"\x01\x02", [1, 2], 2.0**70]  # outside the model's alphabet: oracle only
+
+# incoming addresses that are different tuples but equal after some normalisation of host or port
+ADDRESS_FAMILY = [
+    ("10.0.0.1", 50000), ("10.0.0.01", 50000), ("010.0.0.1", 50000), (" 10.0.0.1", 50000), ("10.0.0.1 ", 50000), ("10.0.0.1.", 50000),
+    ("10.0.0.10", 50000), ("10.0.0.1", 50000 + 65536), ("10.0.0.1", 5000), ("10.0.0.1", 500000), ("10.0.0.1", 0), ("10.0.0.1\x00", 50000),
+    ("::1", 50000), ("0:0:0:0:0:0:0:1", 50000), ("::ffff:10.0.0.1", 50000), ("::FFFF:10.0.0.1", 50000), ("localhost", 50000), ("LOCALHOST", 50000),
+    ("localhost.", 50000), ("", 50000), ("１０.0.0.1", 50000), ("10.0.0.1%eth0", 50000), ("167772161", 50000), ("0x0a000001", 50000),
+]
+
+DEFAULT_POOL = {
+    "addrs": [A0, A1, A2, A3, ("10.0.0.3", 1)],
+    "vals": [None, 0, 1, 7, True, False, "", "AB", "x", A0, A2, ("", 0), 2**70, "v" * 300],
+    "dyn": ["k", "m", "p2p_is_registered", "rx_freq"],
+}
+
+
+def random_op(rng, sut, stream, pool=DEFAULT_POOL):
+    addrs, vals, dyn = pool["addrs"], pool["vals"], pool["dyn"]
     fields = FIELDS[1:] if stream == "ok" else FIELDS
 
     def patch():
@@ -552,7 +1053,7 @@ def random_op(rng, sut, stream):
             v = rng.choice(vals)
         return ("ma", name, v)
     if c < 58:
-        return ("mip", rng.choice(["10.0.0.1", "10.0.0.2", "x", "", "10.0.0.9"]))
+        return ("mip", rng.choice([a[0] for a in addrs[:4]] + ["", "10.0.0.9"]))
     if c < 66:
         return ("mu", _uuid.UUID(int=rng.randrange(nobj + 2)) if rng.random() < 0.9 else rng.choice([5, None]))
     if c < 78:
@@ -562,126 +1063,16 @@ def random_op(rng, sut, stream):
     return ("patch", ref, patch())
 
 
-def run_keys(ctx, family, pairs):
-    """one record (and a bystander) over a family of look-alike keys: every key gets its own value through one of the
-    four write paths, then keys are re-patched, set to None and deleted one by one; attr() of every key of the family
-    (and of the bystander) is read back after every operation"""
-    rng = ctx.rng
-    ops = [("mi", A0, True, {}), ("mi", A1, True, {})]
-    ways = ["mi", "save", "patch", "attr"]
-    order = list(family)
-    rng.shuffle(order)
-    for n, k in enumerate(order):
-        v = rng.choice([n + 1, f"v{n}", (f"10.9.{n}.1", n)])
-        w = ways[(n + rng.randrange(4)) % 4]
-        ops.append({"mi": ("mi", A0, False, {k: v}), "save": ("save", 0, {k: v}), "patch": ("patch", 0, {k: v}), "attr": ("attr", 0, k, v)}[w])
-    for n, k in enumerate(order):
-        c = (n + rng.randrange(3)) % 3
-        ops.append([("patch", 0, {k: f"second{n}"}), ("del", 0, k), ("save", 0, {k: None, "other": n})][c])
-        if n % 3 == 0:
-            ops.append(("del", 1, k))  # the bystander never had it: KeyError, nothing changes
-    ok = run_sequence(ctx, ops, pairs, "ok", watch=family)
-    assert ok
-    ctx.count("keys:families")
-    ctx.count("keys:operations", len(ops))
-
-
-def address_no(i):
-    return (f"10.{(i >> 16) & 255}.{(i >> 8) & 255}.{i & 255}", 30000 + (i % 1000))
-
-
-def run_scale(ctx, n_records, pairs, flush):
-    """many records: n_records auto-creating lookups of pairwise distinct addresses (most of them never identified,
-    some patched), then every kind of lookup for old / middle / new addresses.  Internal thresholds (caches, bounded
-    tables, resizing) show up as a wrong len(storage), a lost record or a changed identity."""
-    sut = Sut()
-    rng = ctx.rng
-    try:
-        local = [("reset", "ok")]
-        objs = []
-
-        def fail(kind, what, i, expected=None, actual=None):
-            ctx.count(f"oracle-failure:{kind}")
-            if len(ctx.failures) < 200:
-                ctx.fail(kind, {"scale": n_records, "at": i, "stream": "scale"}, what, expected=expected, actual=actual)
-
-        def do(op):
-            line, out, raw = sut.apply(op)
-            local.append((line, out))
-            return raw
-
-        for i in range(n_records):
-            p = {}
-            if i % 7 == 3:
-                p = {"dmr_id": 1000 + i}
-            elif i % 5 == 1:
-                p = {"k": i}
-            raw = do(("mi", address_no(i), True, p))
-            if isinstance(raw, BaseException) or any(raw is o for o in objs[-3:]) or sut.index(raw) != i:
-                fail("creation-rule", "auto-creating lookup of an unseen address did not return a new record", i)
-                return
-            objs.append(raw)
-            if len(sut.storage) != i + 1:
-                fail("creation-rule", f"len(storage) after {i + 1} creating lookups of distinct addresses", i, expected=i + 1, actual=len(sut.storage))
-                return
-            if i % 97 == 0 and i:
-                j = rng.randrange(i)
-                r = do(("mi", address_no(j), False, {}))
-                if r is not objs[j]:
-                    fail("identity-changed", f"lookup of address #{j} after {i + 1} records returned another object / None", i, expected=f"obj{j}", actual=sut.res(r) if not isinstance(r, BaseException) else impl_error(r))
-                    return
-        ctx.count("scale:records", n_records)
-        probe = sorted(set(list(range(0, 25)) + [rng.randrange(n_records) for _ in range(40)] + list(range(n_records - 10, n_records))))
-        for j in probe:
-            for op in (("mi", address_no(j), rng.random() < 0.5, {}), ("mu", _uuid.UUID(int=j)), ("ma", "address_in", address_no(j))):
-                r = do(op)
-                if r is not objs[j]:
-                    fail("identity-changed", f"{op[0]} for record #{j} of {n_records} returned another object / None / raised", j, expected=f"obj{j}", actual=sut.res(r) if not isinstance(r, BaseException) else impl_error(r))
-            if len(sut.storage) != n_records:
-                fail("lookup-grew-storage", "len(storage) changed during lookups of stored addresses", j, expected=n_records, actual=len(sut.storage))
-                return
-            want = j if j % 5 == 1 and j % 7 != 3 else None
-            got = objs[j].attr("k")
-            if got != want:
-                fail("attribute-readback", f"attr('k') of record #{j}", j, expected=want, actual=got)
-            if objs[j].id != _uuid.UUID(int=j):
-                fail("identity-changed", f"id of record #{j} changed", j)
-        ids = [o.id for o in sut.storage.all()]
-        if len(set(ids)) != len(ids):
-            fail("duplicate-id", "two stored records have the same id", n_records)
-        local.append(("dump", sut.dump()))
-        pairs.extend(local)
-        flush("storage.scale")
-        ctx.case(("scale", n_records), sample={"stream": "scale", "records": n_records})
-    finally:
-        sut.close()
-
-
-def run_wide(ctx, pairs):
-    """one record with many attributes / long patches / long histories (sibling of the scale stream)"""
-    nkeys = 300
-    big = {f"attr{n:03d}": n for n in range(nkeys)}
-    ops = [("mi", A0, True, {}), ("mi", A1, True, dict(big)), ("patch", 0, {f"attr{n:03d}": -0 + n * 2 for n in range(0, nkeys, 2)})]
-    ops += [("attr", 0, f"attr{n:03d}", f"s{n}") for n in range(1, nkeys, 17)]
-    ops += [("del", 1, f"attr{n:03d}") for n in range(0, nkeys, 13)]
-    ops += [("save", 1, {"callsign": "C" * 5000, "serial": "S", "wide": 2**200})]
-    for n in range(400):
-        ops.append(("patch", n % 2, {"counter": n}))
-    ok = run_sequence(ctx, ops, pairs, "ok", watch=["attr000", "attr001", "attr013", "attr299", "counter", "wide"])
-    assert ok
-    ctx.count("wide:operations", len(ops))
-    ctx.case(("wide", nkeys))
-
-
-def run_random(ctx, length, pairs, stream):
+def run_random(ctx, length, pairs, stream, pool=DEFAULT_POOL, tag="random", watch=()):
+    """`pairs` None: oracle only (values outside the model's alphabet)"""
     sut = Sut()
     try:
         history = []
-        oracle = Oracle(ctx, sut, history) if stream == "ok" else None
+        oracle = Oracle(ctx, sut, history, watch, tag if tag != "random" else None) if stream == "ok" else None
         local = [("reset", "ok")]
         n = 0
         while n < length:
-            op = random_op(ctx.rng, sut, stream)
+            op = random_op(ctx.rng, sut, stream, pool)
             if stream == "ok" and violates_pre(sut, op):
                 continue
             history.append(op_json(op))
@@ -701,9 +1092,229 @@ def run_random(ctx, length, pairs, stream):
             n += 1
             if n % 25 == 0:
                 local.append(("dump", sut.dump()))
+        if oracle and watch:
+            oracle.finish()
         local.append(("dump", sut.dump()))
-        pairs.extend(local)
-        ctx.case(("random", stream, tuple(map(str, history))), sample={"stream": stream, "length": length, "first_ops": history[:4], "len": len(sut.storage)} if length > 20 else None)
+        if pairs is not None:
+            pairs.extend(local)
+        ctx.case((tag, stream, tuple(map(str, history))), sample={"stream": stream, "class": tag, "length": length, "first_ops": history[:4], "len": len(sut.storage)} if length > 20 else None)
+    finally:
+        sut.close()
+
+
+def run_wide(ctx, pairs):
+    """one record with many attributes / one patch with many entries / long values / many successive patches"""
+    nkeys = 300
+    big = {f"attr{n:03d}": n for n in range(nkeys)}
+    ops = [("mi", A0, True, {}), ("mi", A1, True, dict(big)), ("patch", 0, {f"attr{n:03d}": n * 2 for n in range(0, nkeys, 2)})]
+    ops += [("attr", 0, f"attr{n:03d}", f"s{n}") for n in range(1, nkeys, 17)]
+    ops += [("del", 1, f"attr{n:03d}") for n in range(0, nkeys, 13)]
+    ops += [("save", 1, {"callsign": "C" * 5000, "serial": "S", "wide": 2**200})]
+    ops += [("mi", A0, False, {f"w{n}": n for n in range(1100)})]  # one patch with more than a thousand entries
+    for n in range(400):
+        ops.append(("patch", n % 2, {"counter": n}))
+    ok = run_sequence(ctx, ops, pairs, "ok", watch=["attr000", "attr001", "attr013", "attr299", "counter", "wide", "w0", "w1023", "w1024", "w1099"], tag="wide")
+    assert ok
+    ctx.count("wide:operations", len(ops))
+    ctx.case(("wide", nkeys))
+
+
+# ------------------------------------------------------------------------------------------------
+# scale: thousands of records.  The history is a pure function of (shape, n, salt), so that a failing input is the
+# triple plus the number of operations to run.
+
+SCALE_SHAPES = {
+    # name: (address of record i, every how many records one is identified (dmr_id set; 0 = never))
+    "ips": (lambda i: (f"10.{(i >> 16) & 255}.{(i >> 8) & 255}.{i & 255}", 50000), 50),
+    "ports": (lambda i: ("10.9.9.9", 1024 + i), 0),
+    "mixed": (lambda i: (f"172.16.{((i // 5) >> 8) & 255}.{(i // 5) & 255}", 40000 + i % 5), 3),
+    "identified": (lambda i: (f"192.168.{(i >> 8) & 255}.{i & 255}", 30000 + i % 7), 1),
+}
+
+
+def scale_ops(shape, n, salt):
+    """yields the operations: n auto-creating lookups of pairwise distinct addresses, interleaved with every kind of
+    lookup / patch of earlier records (the oldest, the middle, random ones, the newest), then re-lookups of the oldest
+    64, the newest 8 and 64 random records"""
+    addr, ident = SCALE_SHAPES[shape]
+    rng = random.Random(f"scale:{shape}:{n}:{salt}")
+    for i in range(n):
+        if ident and i % ident == ident - 1:
+            p = {"dmr_id": 100000 + i}
+        elif i % 5 == 1:
+            p = {"k": i}
+        elif i % 11 == 2:
+            p = {"callsign": f"C{i}", "rx_freq": 430000000 + i}
+        else:
+            p = {}
+        yield ("mi", addr(i), True, p)
+        if i % 13 == 5 or ((i + 1) & i) == 0 or (i + 1) % 1000 == 0:
+            for j in dict.fromkeys([0, rng.choice([1, 2, i // 2, i, max(i - 1, 0)]), rng.randrange(i + 1)]):
+                c = rng.randrange(9)
+                if c == 0:
+                    yield ("mi", addr(j), True, {"m": i})
+                elif c == 1:
+                    yield ("mu", _uuid.UUID(int=j))
+                elif c == 2:
+                    yield ("ma", "address_in", addr(j))
+                elif c == 3:
+                    yield ("mip", addr(j)[0])
+                elif c == 4:
+                    yield ("attr", j, "k", None)
+                elif c == 5:
+                    yield ("attr", j, "n", i)
+                elif c == 6:
+                    yield ("mi", (addr(j)[0], 7), False, {})  # a port nobody uses: unseen, no auto-create
+                else:
+                    yield ("mi", addr(j), False, {})
+    probe = list(range(min(64, n))) + list(range(max(n - 8, 0), n)) + [rng.randrange(n) for _ in range(64)]
+    for j in dict.fromkeys(probe):
+        yield ("mi", addr(j), rng.random() < 0.3, {})
+        if j % 3 == 0:
+            yield ("mu", _uuid.UUID(int=j))
+        if j % 16 == 0:
+            yield ("ma", "dmr_id", 100000 + j)
+
+
+class ScaleOracle:
+    """the property on a long history at O(1) per operation (a mirror of what the operations imply), with a full
+    comparison of every record at powers of two (+-1), every 500 operations and at the end"""
+
+    def __init__(self, sut):
+        self.sut = sut
+        self.fields = []  # per record
+        self.attrs = []
+        self.by_addr = {}
+        self.first_ip = {}
+        self.by_dmr = {}
+        self.t = 0
+        self.failure = None
+
+    def fail(self, kind, what, expected=None, actual=None):
+        if self.failure is None:
+            self.failure = (kind, what, expected, actual)
+
+    def show(self, raw):
+        return impl_error(raw) if isinstance(raw, BaseException) else self.sut.res(raw)
+
+    def expect_obj(self, op, raw, j):
+        sut = self.sut
+        if j is None:
+            if raw is not None:
+                self.fail("wrong-record", f"operation {self.t} {op[0]}: nothing stored matches, but something was returned", expected="None", actual=self.show(raw))
+            return
+        if isinstance(raw, BaseException) or raw is not sut.created[j]:
+            kind = "identity-changed" if op[0] == "mi" else "wrong-record"
+            self.fail(kind, f"operation {self.t} {op[0]}: record #{j} (created by the {j + 1}. auto-creating lookup, address {self.fields[j]['address_in']}) is not what is returned with {len(self.fields)} records created", expected=f"obj{j}", actual=self.show(raw))
+        elif raw.id != _uuid.UUID(int=j):
+            self.fail("identity-changed", f"operation {self.t}: id of record #{j} changed", expected=f"u{j}", actual=cval(raw.id))
+
+    def check_record(self, j):
+        got = self.sut.snapshot_one(j)
+        if got != (self.fields[j], self.attrs[j]):
+            self.fail("patch-not-local", f"operation {self.t}: record #{j} differs from what the operations on it imply", expected=str((self.fields[j], self.attrs[j]))[:300], actual=str(got)[:300])
+
+    def full(self):
+        sut = self.sut
+        all1 = sut.storage.all()
+        n = len(self.fields)
+        if len(all1) != n or any(a is not b for a, b in zip(all1, sut.created)):
+            gone = [i for i, o in enumerate(sut.created[:n]) if i >= len(all1) or all1[i] is not o][:5]
+            self.fail("record-lost", f"operation {self.t}: all() is not the {n} records created so far, in creation order (first differences at records {gone})", expected=n, actual=len(all1))
+            return
+        ids = {o.id for o in all1}
+        if len(ids) != n:
+            self.fail("duplicate-id", f"operation {self.t}: two stored records have the same id")
+        for j in range(n):
+            self.check_record(j)
+            if self.failure:
+                return
+
+    def step(self, op, raw):
+        sut = self.sut
+        n0 = len(self.fields)
+        raised = isinstance(raw, BaseException)
+        target = None
+        if op[0] == "mi":
+            j = self.by_addr.get(op[1])
+            if j is None and op[2]:
+                j = n0
+                if raised or sut.index(raw) != n0 or len(sut.created) != n0 + 1:
+                    self.fail("creation-rule", f"operation {self.t}: auto-creating lookup of the unseen address {op[1]} did not return a new record ({n0} records so far)", expected=f"obj{n0}", actual=self.show(raw))
+                    return
+                self.fields.append(fresh_fields(n0, op[1]))
+                self.attrs.append({})
+                self.by_addr[op[1]] = n0
+                self.first_ip.setdefault(op[1][0], n0)
+            self.expect_obj(op, raw, j)
+            target = j
+            if j is not None and not self.failure:
+                self.fields[j], self.attrs[j] = expected_after_patch(self.fields[j], self.attrs[j], op[3])
+                if "dmr_id" in op[3]:
+                    self.by_dmr.setdefault(op[3]["dmr_id"], j)
+        elif op[0] == "mu":
+            self.expect_obj(op, raw, op[1].int if op[1].int < n0 else None)
+        elif op[0] == "ma":
+            j = self.by_addr.get(op[2]) if op[1] == "address_in" else self.by_dmr.get(op[2])
+            self.expect_obj(op, raw, j)
+        elif op[0] == "mip":
+            self.expect_obj(op, raw, self.first_ip.get(op[1]))
+        elif op[0] == "attr":
+            target = op[1]
+            want = op[3] if op[3] is not None else self.attrs[target].get(op[2])
+            if raised or not same(raw, want):
+                self.fail("attribute-readback", f"operation {self.t}: attr({op[2]!r}) of record #{target}", expected=repr(want), actual=self.show(raw))
+            if op[3] is not None:
+                self.attrs[target][op[2]] = op[3]
+        if self.failure:
+            return
+        n1 = len(self.fields)
+        if len(sut.storage) != n1:
+            kind = "creation-rule" if n1 != n0 else "lookup-grew-storage" if len(sut.storage) > n1 else "record-lost"
+            self.fail(kind, f"operation {self.t} {op[0]}: len(storage) with {n1} records created by auto-creating lookups of pairwise distinct addresses", expected=n1, actual=len(sut.storage))
+            return
+        if len(sut.created) != n1:
+            self.fail("creation-rule", f"operation {self.t} {op[0]}: an object unknown so far was returned", expected=n1, actual=len(sut.created))
+            return
+        if target is not None:
+            self.check_record(target)
+        if n1 != n0 and (((n1 + 1) & n1) == 0 or (n1 & (n1 - 1)) == 0 or ((n1 - 1) & (n1 - 2)) == 0 or n1 % 500 in (0, 1)):
+            self.full()
+        self.t += 1
+
+
+def run_scale(ctx, shape, n, salt, pairs, with_model, upto=None, verbose=None):
+    """returns the failure (kind, what, expected, actual) or None"""
+    sut = Sut()
+    try:
+        oracle = ScaleOracle(sut)
+        local = [("reset", "ok")]
+        for t, op in enumerate(scale_ops(shape, n, salt)):
+            if upto is not None and t > upto:
+                break
+            line, out, raw = sut.apply(op, pre_flag=False)
+            if with_model:
+                local.append((line, out))
+            if verbose is not None:
+                verbose.append((line, out))
+            oracle.step(op, raw)
+            if oracle.failure:
+                break
+        if not oracle.failure:
+            oracle.full()
+        if ctx is not None:
+            ctx.count(f"scale:{shape}:records", len(oracle.fields))
+            ctx.count(f"scale:{shape}:operations", oracle.t)
+            ctx.count("scale:records-max", max(0, len(oracle.fields) - ctx.hist.get("scale:records-max", 0)))
+            ctx.case(("scale", shape, n, salt), sample={"class": "scale", "shape": shape, "records": len(oracle.fields), "operations": oracle.t, "model": bool(with_model)})
+            if oracle.failure:
+                kind, what, expected, actual = oracle.failure
+                ctx.count(f"oracle-failure:{kind}")
+                ctx.fail(kind, {"stream": "scale", "shape": shape, "n": n, "salt": salt, "upto": oracle.t}, what, expected=expected, actual=actual)
+            elif with_model:
+                local.append(("dump", sut.dump()))
+                pairs.extend(local)
+        return oracle.failure
     finally:
         sut.close()
 
@@ -718,6 +1329,8 @@ CORPUS = [
     [("mi", A0, True, {"dmr_id": None, "k": None}), ("attr", 0, "k", None), ("del", 0, "k")],
     # moving a record to an unheld address, then re-creating the old one
     [("mi", A0, True, {}), ("patch", 0, {"address_in": A1}), ("mi", A0, True, {}), ("mi", A1, False, {})],
+    # what read_snmp_values() patches in: the Hytera OIDs, two of which differ by a '0' before the instance suffix
+    [("mi", A0, True, {"1.3.6.1.4.1.40297.1.2.4.1.0": "RD985", "1.3.6.1.4.1.40297.1.2.4.10.0": 438200000}), ("patch", 0, {"1.3.6.1.4.1.40297.1.2.4.10.0": 438300000}), ("del", 0, "1.3.6.1.4.1.40297.1.2.4.10.0"), ("attr", 0, "1.3.6.1.4.1.40297.1.2.4.1.0", None)],
 ]
 
 
@@ -742,21 +1355,30 @@ def _run(ctx):
         "histories of the eight storage operations on a fresh RepeaterStorage: a corpus, every sequence up to "
         "length 5 (quick) / 6 (thorough) over four pools of 8 operations (3 addresses, two sharing an IP; patches with "
         "data members, dynamic attributes and None values; error outcomes), random histories up to length 300 over a "
-        "larger pool (incl. families of look-alike attribute keys); a key stream (7 families of names that collide under "
-        "suffix/character stripping, case folding, whitespace, Unicode normalisation, prefixes, numeric reading: every key written "
-        "through all four write paths, re-patched, deleted, all read back through attr() after every operation); a scale stream "
-        "(300 / 1100 records in quick, up to 4200 in thorough: len, identity, ids and attributes of old / middle / new records; "
-        "one record with 300 attributes, long values and 400 successive patches); stream 'ok' respects the two preconditions of the theorems (no patch assigns id; address_in is "
-        "only assigned a value no other record holds) and is checked against the property as stated, stream 'cross' "
-        "crosses them and is checked for model = code and unique dictionary keys. A history is distinct by its "
-        "operation list; non-trivial = at least one record exists"
+        "larger pool; attribute NAMES: the library's own constants (SNMP.OID_*, STORAGE_ATTR_*, read from the live classes) "
+        "and a generated near-collision family of each (affixes added/removed, stripped character sets, zeros/dots around the "
+        "last segment, dotted prefixes, case, separators, white space, invisible characters, NFC/NFD/NFKC/NFKD and width forms, "
+        "truncations and 300-character twins, numeric spellings, look-alikes of the nine member names): every pair of names "
+        "that ~50 plausible normalisers map to one image gets short write/overwrite/delete/read histories, one sweep writes, "
+        "re-patches and deletes EVERY name of a large sample on one record and reads all of them back (complete over pairs), "
+        "random histories run over clusters of look-alike names; special VALUES (white space, NUL, Unicode forms, huge ints, "
+        "300-character strings; negative ints/floats/bytes/lists oracle-only); look-alike ADDRESSES (leading zeros, case, white "
+        "space, port mod 65536, IPv6 spellings); WIDE records (300 attributes, a patch of 1100 entries, 5000-character values); "
+        "SCALE: 1500 records in quick / 20000 in thorough (distinct IPs, one IP with many ports, mixed; identified fraction 0 … 1), "
+        "lookups of the oldest / middle / newest records interleaved and at the end, full comparison of every record at powers "
+        "of two and every 500 records. Stream 'ok' respects the two preconditions of the theorems (no patch assigns id; "
+        "address_in is only assigned a value no other record holds) and is checked against the property as stated (incl. "
+        "attr() read back through the public API after every operation), stream 'cross' crosses them and is checked for "
+        "model = code and unique dictionary keys. A history is distinct by its operation list; non-trivial = at least one "
+        "record exists"
     )
     ctx.trusted_base += [
         "Lean 4.33 kernel",
-        "tools/extract_storage.py (data member names and constructor defaults of Repeater read from /repo)",
+        "tools/extract_storage.py (data member names and constructor defaults of Repeater, the library's attribute-name constants, read from /repo)",
         "hand-written model of RepeaterStorage / Repeater (Model/Storage.lean) tied to the code by this run's correspondence",
         "uuid.uuid4 replaced by a counter: freshness of real UUIDs is assumed, not proved",
         "Python dict semantics (insertion order, update in place) as modelled by dictSet/dictGet/dictDel",
+        "attribute names reach the model through an injective ASCII encoding (ckey): the model compares names as strings",
     ]
     ctx.assumptions += [
         "A1: patch keys and match_attr names are data member names of Repeater or names that are no attribute of it at all "
@@ -765,6 +1387,12 @@ def _run(ctx):
         "A3: save/attr/delete_attr/patch are applied to objects obtained from the storage (as the protocol handlers do) or, for save, None",
         "P1/P2 (theorem hypotheses, stream 'ok'): no patch assigns id; address_in is only assigned a value no other stored record holds",
     ]
+    quick = not ctx.thorough()
+
+    def budget(q, t, cap):
+        """boosted budgets (x4 source drift, x8 broken proof) are capped so that a boosted quick run stays within minutes"""
+        return min(ctx.budget(q, t), cap if quick else cap * 20)
+
     pairs = []
     # ---- corpus
     for seq in CORPUS:
@@ -772,17 +1400,63 @@ def _run(ctx):
         ctx.case(("corpus", str(seq)))
         assert ok, "corpus sequence left the preconditions"
     flush(ctx, "storage.corpus", pairs)
-    # ---- look-alike keys: names that collide under some normalisation must stay separate attributes
-    for rep in range(2 if not ctx.thorough() else 6):
-        for fam in KEY_FAMILIES:
-            run_keys(ctx, fam, pairs)
-            ctx.case(("keys", rep, fam[0]))
+    # ---- attribute names: collision candidates (short histories first: they give the shortest failing inputs)
+    keys = Keys(ctx)
+    rng = ctx.rng
+    todo = list(keys.tier0)
+    todo += rng.sample(keys.tier1, min(len(keys.tier1), budget(250, 4000, 700)))
+    todo += rng.sample(keys.tier2, min(len(keys.tier2), budget(100, 2000, 300)))
+    run_pairs(ctx, keys, pairs, todo)
+    for fam in KEY_FAMILIES:
+        run_pairs(ctx, keys, pairs, [(a, b) for a, b in itertools.combinations(fam, 2)][:: 1 if ctx.thorough() else 3], tag="keys:family-pair")
     flush(ctx, "storage.keys", pairs)
-    # ---- scale: internal thresholds (bounded tables, caches) only show with many records / attributes
+    # ---- the sweep: every library name, its collision partners, and a sample of the rest of the universe, on one record
+    first = list(dict.fromkeys(keys.base + [p for b in keys.base for p in keys.partners.get(b, [])]))
+    rest = [k for k in keys.universe if k not in set(first)]
+    nsweep = budget(900, 6000, 1800)
+    names = first[:nsweep] + rng.sample(rest, max(0, min(len(rest), nsweep - len(first[:nsweep]))))
+    run_sweep(ctx, keys, names, pairs)
+    flush(ctx, "storage.keys.sweep", pairs)
+    # ---- random histories over clusters of look-alike names, with special values
+    for i in range(budget(150, 3000, 450)):
+        cl = keys.cluster(rng) if i % 8 else list(rng.choice(KEY_FAMILIES))
+        pool = {"addrs": DEFAULT_POOL["addrs"][:3], "vals": [None, 0, 1, "x", A0] + rng.sample(SPECIAL_VALUES, 4), "dyn": cl}
+        run_random(ctx, rng.choice([6, 15, 40]), pairs, "ok", pool, tag="keys:cluster", watch=cl)
+        if len(pairs) > 200000:
+            flush(ctx, "storage.keys.cluster", pairs)
+    flush(ctx, "storage.keys.cluster", pairs)
+    # ---- special values (in the model's alphabet: with the model; outside: the oracle alone)
+    for i in range(budget(60, 1500, 180)):
+        pool = {"addrs": DEFAULT_POOL["addrs"], "vals": [None, 0, "x"] + rng.sample(SPECIAL_VALUES, 6), "dyn": DEFAULT_POOL["dyn"]}
+        run_random(ctx, rng.choice([8, 20, 50]), pairs, "ok", pool, tag="values:special")
+    flush(ctx, "storage.values", pairs)
+    for i in range(budget(40, 600, 120)):
+        pool = {"addrs": DEFAULT_POOL["addrs"][:3], "vals": [None, 0, "x", 7] + FOREIGN_VALUES, "dyn": DEFAULT_POOL["dyn"]}
+        run_random(ctx, rng.choice([8, 20, 50]), None, "ok", pool, tag="values:outside-model-alphabet")
+    # ---- look-alike addresses: every different tuple is a different peer
+    for i in range(budget(60, 1500, 180)):
+        pool = {"addrs": rng.sample(ADDRESS_FAMILY, 5), "vals": DEFAULT_POOL["vals"], "dyn": DEFAULT_POOL["dyn"]}
+        run_random(ctx, rng.choice([8, 20, 50]), pairs, "ok", pool, tag="addresses:look-alike")
+    run_sequence(ctx, [("mi", a, True, {"k": n}) for n, a in enumerate(ADDRESS_FAMILY)] + [("mi", a, False, {}) for a in ADDRESS_FAMILY], pairs, "ok", tag="addresses:look-alike")
+    ctx.case(("addresses:all", len(ADDRESS_FAMILY)))
+    flush(ctx, "storage.addresses", pairs)
+    # ---- wide records
     run_wide(ctx, pairs)
     flush(ctx, "storage.wide", pairs)
-    for n_records in ([300, 1100] if not ctx.thorough() else [300, 1100, 2100, 4200]):
-        run_scale(ctx, n_records + ctx.seed % 7, pairs, lambda comp: flush(ctx, comp, pairs))
+    # ---- scale: internal thresholds (bounded tables, eviction, caches) only show with many records.
+    # The model (list based, cubic) follows up to 1500 records in quick / 2000 in thorough; beyond that the oracle alone.
+    salt = ctx.seed
+    if quick:
+        plan = [("ips", 1500 + ctx.seed % 7, True), ("ports", 1150, False), ("mixed", 700, False), ("identified", 300, False)]
+        if ctx.boost > 1:
+            plan += [("ports", 3000, False), ("identified", 1300, False)]
+    else:
+        plan = [("ips", 20000 + ctx.seed % 7, False), ("ports", 6000, False), ("mixed", 5000, False), ("identified", 2500, False), ("ips", 2000, True), ("ports", 1300, True)]
+    for shape, n, with_model in plan:
+        failure = run_scale(ctx, shape, n, salt, pairs, with_model and not ctx.search_only and ctx.driver_ok)
+        flush(ctx, f"storage.scale.{shape}", pairs)
+        if failure:
+            break  # one long failing input is enough
     # ---- exhaustive short histories
     maxlen = 6 if ctx.thorough() else 5
     if ctx.boost > 1:
@@ -816,10 +1490,13 @@ def _run(ctx):
     flush(ctx, "storage.excluded-points", pairs)
     ctx.count("exhaustive:cross:run", done)
     # ---- random histories
-    nrand = ctx.budget(500, 10000)
+    nrand = budget(500, 10000, 1500)
     for i in range(nrand):
         length = ctx.rng.choice([3, 8, 20, 60, 150, 300]) if i % 5 else 300
-        run_random(ctx, length, pairs, "ok" if i % 4 else "cross")
+        pool = DEFAULT_POOL
+        if i % 3 == 0:
+            pool = dict(DEFAULT_POOL, dyn=list(ctx.rng.choice(KEY_FAMILIES)) if i % 2 else keys.cluster(ctx.rng))
+        run_random(ctx, length, pairs, "ok" if i % 4 else "cross", pool)
         if len(pairs) > 200000:
             flush(ctx, "storage.random", pairs)
     flush(ctx, "storage.random", pairs)
@@ -827,53 +1504,73 @@ def _run(ctx):
 
 
 # ------------------------------------------------------------------------------------------------
+def drive_model(lines):
+    import os
+    import subprocess
+
+    from common import BIN
+
+    exe = os.path.join(BIN, "drv_c20")
+    return subprocess.run([exe], input="\n".join(["reset"] + lines + ["dump"]) + "\n", capture_output=True, text=True).stdout.split("\n")[1:]
+
+
 def replay(obj):
+    import logging
+
+    logging.disable(logging.CRITICAL)
     f = obj.get("failure") or {}
     inp = f.get("input") or {}
     print(json.dumps(obj.get("type")), f.get("what"))
+    if inp.get("stream") == "scale":
+        verbose = []
+        failure = run_scale(None, inp["shape"], inp["n"], inp["salt"], [], False, upto=inp.get("upto"), verbose=verbose)
+        print(f"scale history shape={inp['shape']} n={inp['n']} salt={inp['salt']}: {len(verbose)} operations run; the last ones:")
+        for line, out in verbose[-6:]:
+            print(f"implementation  {line[:90]:90s} -> {out}")
+        if inp["n"] <= 2000:
+            try:
+                outs = drive_model([l for l, _ in verbose])
+                for (line, _), o in list(zip(verbose, outs))[-6:]:
+                    print(f"model           {line[:90]:90s} -> {o}")
+            except Exception as e:  # noqa
+                print("model driver not available:", e)
+        print("property check:", failure)
+        print("expected:", f.get("expected"), "actual:", f.get("actual"))
+        return 1 if failure else 0
     hist = [op_unjson(o) for o in inp.get("history", [])]
     if not hist:
         print("no history recorded (proof/correspondence record):", json.dumps(obj.get("no_longer_checks") or obj.get("correspondence_differences"))[:2000])
         return 1
-
-    class C:  # minimal context collecting the oracle's verdicts
-        failures = []
-
-        def fail(self, kind, input, what, expected=None, actual=None):
-            self.failures.append((kind, what, expected, actual))
-
-        def count(self, *a):
-            pass
-
-    c = C()
+    c = Sink()
     sut = Sut()
     lines = []
+    in_model = True
     try:
-        oracle = Oracle(c, sut, [op_json(o) for o in hist]) if inp.get("stream") == "ok" else None
+        oracle = Oracle(c, sut, [op_json(o) for o in hist], inp.get("watch", ())) if inp.get("stream") == "ok" else None
         for op in hist:
             if oracle:
                 oracle.before(op)
             line, out, raw = sut.apply(op)
+            in_model = in_model and modelled(op)
             lines.append(line)
-            print(f"implementation  {line:60s} -> {out}")
+            if len(hist) <= 40 or len(lines) > len(hist) - 6:
+                print(f"implementation  {line[:90]:90s} -> {out}")
             if oracle:
                 oracle.after(op, raw)
-        print("implementation  " + sut.dump())
+        if oracle and inp.get("watch"):
+            oracle.finish()
+        if len(hist) <= 40:
+            print("implementation  " + sut.dump())
     finally:
         sut.close()
-    try:
-        import os
-        import subprocess
-
-        from common import BIN
-
-        exe = os.path.join(BIN, "drv_c20")
-        out = subprocess.run([exe], input="\n".join(["reset"] + lines + ["dump"]) + "\n", capture_output=True, text=True).stdout.split("\n")
-        for l, o in zip(lines + ["dump"], out[1:]):
-            print(f"model           {l:60s} -> {o}")
-    except Exception as e:  # noqa
-        print("model driver not available:", e)
-    for k in c.failures:
-        print("property check:", k)
+    if in_model:
+        try:
+            out = drive_model(lines)
+            for l, o in list(zip(lines + ["dump"], out))[-41 if len(hist) <= 40 else -6 :]:
+                print(f"model           {l[:90]:90s} -> {o[:2000]}")
+        except Exception as e:  # noqa
+            print("model driver not available:", e)
+    for k in c.failures[:10]:
+        print("property check:", (k["kind"], k["what"], k["expected"], k["actual"]))
     print("expected:", f.get("expected"), "actual:", f.get("actual"))
     return 1 if c.failures or not oracle else 0
